@@ -342,7 +342,8 @@ def run(tier, seed):
                      "C12_no_panic2_histories: histories over the large alphabet op2 are covered for Op1, OpSort, OpSortModel, OpSetVersion, "
                      "OpCheckCompat, OpSerializeFile, OpSerializeElem; C12_no_panic3_histories adds OpDuplicate as a step when the call returns Ok (with "
                      "SizeOk at each of its copies); a FAILING duplicate is covered as a call only (it returns; the state after it is outside the "
-                     "invariant); OpLoad is PENDING (correspondence + fuzzer only)",
+                     "invariant); C12_no_panic4_histories adds OpLoad as a step for loads REJECTED before anything is installed (file name taken / the parser "
+                     "raises; C12_load_front_total); a load whose buffer the parser accepts (load_parsed) is PENDING (correspondence + fuzzer only)",
                      "op_wfv / ver_ok: version arguments are values of AutosarVersion discriminants",
                      "SizeOk: every identifiables map has fewer than 10^39 entries (injectivity of format!(\"{counter}\") in make_unique_item_name)",
                      "check_fn (the regex validators) is total: C19",
